@@ -32,7 +32,11 @@ import (
 // Case: proc upload|ship|replicate|delete, segs[i] = chunk segment files of block i, conc = upload
 // concurrency > 1, pres[i] = state of block i in the target bucket before the procedure,
 // crashes[r] = in run r the bucket goes away before the crashes[r]-th mutating call (the run then
-// fails through its error paths; a fresh run follows); a final run has no fault.
+// fails through its error paths; a fresh run follows); deny = {obj, times}: in the first run the
+// uploads of that object (a chunk segment or the index, of every block) are refused - every time
+// (times = 99) or the first `times` attempts - while every other bucket call succeeds; a final run
+// has no fault. The C28 clauses are judged on every resulting bucket state whatever the procedure
+// returned.
 func TestC28(t *testing.T) {
 	tr := vt.Open(t)
 	defer tr.Close()
@@ -50,7 +54,7 @@ func TestC28(t *testing.T) {
 	for _, c := range vt.TLCCases(t) {
 		c = vt.Normalize(c)
 		run(vt.Case{"proc": c["proc"], "conc": c["conc"], "segs": []int{vt.Int(c["nseg"])}, "pres": []string{vt.Str(c["pre"])},
-			"crashes": c["crashes"], "bseed": rnd.Int63n(1 << 40), "src": "tlc"})
+			"crashes": c["crashes"], "deny": c["deny"], "bseed": rnd.Int63n(1 << 40), "src": "tlc"})
 	}
 	procs := []string{"upload", "upload_prom", "ship", "replicate", "delete"}
 	dpres := []string{"complete", "complete+mark", "partial", "partial+mark", "complete+marks", "partial+marks"}
@@ -72,8 +76,16 @@ func TestC28(t *testing.T) {
 		for k := rnd.Intn(3); k > 0; k-- {
 			crashes = append(crashes, 1+rnd.Intn(total))
 		}
+		deny := map[string]any{"obj": "none", "times": 0}
+		if proc != "delete" && rnd.Intn(3) == 0 {
+			obj := "index"
+			if rnd.Intn(3) > 0 {
+				obj = fmt.Sprintf("chunks/%06d", 1+rnd.Intn(segs[0]))
+			}
+			deny = map[string]any{"obj": obj, "times": []int{99, 1, 2, 3}[rnd.Intn(4)]}
+		}
 		run(vt.Case{"proc": proc, "conc": (proc == "upload" || proc == "upload_prom" || proc == "ship") && rnd.Intn(2) == 0, "segs": segs, "pres": pres,
-			"crashes": crashes, "bseed": rnd.Int63n(1 << 40), "src": "rand"})
+			"crashes": crashes, "deny": deny, "bseed": rnd.Int63n(1 << 40), "src": "rand"})
 	}
 }
 
@@ -220,10 +232,24 @@ func runC28(t *testing.T, tr *vt.Tracer, caseID int64, c vt.Case) {
 		return nil
 	}
 
+	denyObj, denyTimes := "none", 0
+	if d, ok := c["deny"]; ok && d != nil {
+		denyObj, denyTimes = vt.Str(vt.Map(d)["obj"]), vt.Int(vt.Map(d)["times"])
+		if denyTimes == 99 {
+			denyTimes = -1
+		}
+	}
 	errs := []string{}
-	for _, k := range append(append([]int{}, crashes...), 0) {
+	plan := append([]int{}, crashes...)
+	if denyObj != "none" && len(plan) == 0 {
+		plan = append(plan, 0) // a run of its own for the denial
+	}
+	for r, k := range append(plan, 0) {
 		runNo++
 		target.OutageFromMutation(k)
+		if r == 0 && denyObj != "none" {
+			target.DenyUploads(func(name string) bool { return strings.HasSuffix(name, "/"+denyObj) }, denyTimes)
+		}
 		err := once()
 		target.Heal()
 		if err != nil {
@@ -232,10 +258,8 @@ func runC28(t *testing.T, tr *vt.Tracer, caseID int64, c vt.Case) {
 			errs = append(errs, "ok")
 		}
 	}
-	// the final, fault-free run must succeed; anything else is a harness problem, not a verdict
-	if errs[len(errs)-1] != "ok" {
-		t.Fatalf("case %d (%v): fault-free run failed", caseID, c)
-	}
+	// a failing fault-free run is recorded (End.runs), not fatal: C28 judges bucket states, whatever the
+	// procedures return
 	se := TakeSnapshot(inner, al)
 	tr.Emit(vt.Event{"ev": "End", "case": caseID, "runs": errs, "objs": se.Objs})
 	_ = filepath.Join
